@@ -32,6 +32,8 @@ def _root_without_returns(facts, b):
 def _forward(facts, b, uninterp=True):
     fw = Forward(facts)
     fw.ev.uninterp = uninterp
+    if uninterp:
+        fw.ev.extra_uninterp = {"reshape"}     # in a documented formula a reshape of an argument is not that argument (its dimensions change what it is combined with)
     return fw
 
 
@@ -41,6 +43,13 @@ def _single_arr(fw, val):
         return vals[0][1], None
     why = vals[0][1] if vals and vals[0][0] == "unk" else "%d possible values" % len(vals)
     return None, str(why)[:120]
+
+
+def _same_safe(x, y):
+    try:
+        return same(x, y)
+    except Unsupported:
+        return True     # undecided: not counted as a difference
 
 
 def _find_fn(facts, name, impl_self=ARRAY, trait=None):
@@ -556,11 +565,17 @@ def r34_documented_formulas(facts):
             got = fw.ev.alts(val)
         except (Abstain, Unsupported, RecursionError) as ex:
             got = [("unk", str(ex))]
+        A = fw.alg.atom
+        want = A("sum_all[%r]" % A("call:f:cost[%r|%r]" % (A("f:output"), tgt)))
+        if len(got) > 1 and all(g_[0] == "s" for g_ in got):
+            # several possible values (a condition on the way): each of them is returned for some input, so each must be the documented one
+            off = [g_ for g_ in got if not _same_safe(g_[1], want)]
+            if off:
+                c.bad("model:backward", where, "value returned by Model::backward(target=a0) is documented as %r but for some inputs the code computes %r" % (want, off[0][1]))
+                continue
         if len(got) != 1 or got[0][0] != "s":
             c.unk("model:backward", where, "the returned value is outside the algebra (%s)" % (str(got[0][1])[:100] if got else "?"))
             continue
-        A = fw.alg.atom
-        want = A("sum_all[%r]" % A("call:f:cost[%r|%r]" % (A("f:output"), tgt)))
         n += 1
         _cmp(c, "model:backward", where, got[0][1], want, "value returned by Model::backward(target=a0)")
     c.count("formulas compared", n)
